@@ -18,10 +18,19 @@ ASSUMPTIONS = ["model arithmetic on declarations (vf/meaning.py core_from_sx + E
                "negative / zero steps and out-of-range slices are not generated here (C14)"]
 TIERS = {"quick": {"shards": 8, "budget_s": 50}, "thorough": {"shards": 16, "budget_s": 420}}
 REQUIRE = {"references-checked": 2000, "consumer:resolve_qubit": 2000, "consumer:fill_in_map": 2000,
-           "consumer:used_qubits": 2000, "consumer:emulator": 1000, "consumer:pygsti": 500, "style:let": 200,
+           "consumer:used_qubits": 2000, "consumer:emulator": 1000, "consumer:pygsti": 500, "style:let": 200, "style:override": 200,
            "style:default": 200, "depth>=2": 500, "position:macro-arg": 200, "position:macro-body": 200, "position:macro-index": 200}
 
 _PYGSTI = [None]
+_BACKEND = [None]
+
+
+def shared_backend():
+    if _BACKEND[0] is None:
+        from jaqalpaq.emulator.unitary import UnitarySerializedEmulator
+
+        _BACKEND[0] = UnitarySerializedEmulator()
+    return _BACKEND[0]
 
 
 def pygsti_label():
@@ -58,17 +67,29 @@ def spec_len(spec, n):
     return len(range(spec[1], spec[2], spec[3]))
 
 
-def build_program(n, chain, style, rng, offset=0):
-    """Program exercising every index of the final alias in five statement positions.
-    style: 'lit' | 'default' | 'let' -- how slice bounds / indices are written."""
+def build_program(n, chain, style, rng, offset=0, ov=None):
+    """Program exercising every index of the final alias in several statement positions.
+    style: 'lit' | 'default' | 'let' | 'override' -- how slice bounds / indices are written.
+    With 'override' every let is *declared* with a benign default (0 for starts and indices, the
+    source size for stops, 1 for steps, n for the register size) and the chain's real values are
+    supplied through the override dictionary `ov` (filled in by this function)."""
     lets = {}
     header = []
+    counter = [0]
 
-    def val(v, allow_default=None):
+    def val(v, role="index"):
         if style == "let" and rng.random() < 0.7:
             name = "c%d" % v
             if name not in lets:
                 lets[name] = v
+            return name
+        if style == "override" and rng.random() < 0.7:
+            counter[0] += 1
+            name = "o%d" % counter[0]
+            lets[name] = {"index": 0, "start": 0, "step": 1}.get(role, v) if role != "stop" else n
+            if role == "size":
+                lets[name] = n
+            ov[name] = v
             return name
         return v
 
@@ -82,14 +103,14 @@ def build_program(n, chain, style, rng, offset=0):
             maps.append(("map", name, names[-1]))
         else:
             st, sp, se = spec[1:]
-            s_st = None if (style == "default" and st == 0) else val(st)
-            s_sp = None if (style == "default" and sp == src_len) else val(sp)
-            s_se = None if (style == "default" and se == 1) else val(se)
+            s_st = None if (style == "default" and st == 0) else val(st, "start")
+            s_sp = None if (style == "default" and sp == src_len) else val(sp, "stop")
+            s_se = None if (style == "default" and se == 1) else val(se, "step")
             maps.append(("map", name, names[-1], s_st, s_sp, s_se))
         src_len = spec_len(spec, src_len)
         names.append(name)
     final = names[-1]
-    size_expr = val(reg_size) if style == "let" else reg_size
+    size_expr = val(reg_size, "size") if style in ("let", "override") else reg_size
     body = []
     singles = []
     refs = []  # (statement description, reference sexpr)
@@ -129,11 +150,12 @@ def build_program(n, chain, style, rng, offset=0):
     return ("circuit",) + tuple(header) + tuple(macros) + tuple(body), refs
 
 
-def expected_indices(prog):
-    """k for each prepare/measure section, from the model's declarations."""
+def expected_indices(prog, ov=None):
+    """k for each prepare/measure section, from the model's declarations (under the override dictionary)."""
+    ov = ov or {}
     core = M.core_from_sx(prog)
-    tree = M.full_meaning(core, env={})
-    P = refexec.Program(tree, len(M.Evaluator(core, env={}, resolve=True).elems(core.fundamental()[0], {})))
+    tree = M.full_meaning(core, env=ov)
+    P = refexec.Program(tree, len(M.Evaluator(core, env=ov, resolve=True).elems(core.fundamental()[0], {})))
     scan = P.flat_scan()
     ks = []
     for p, m in scan["subs"]:
@@ -172,8 +194,9 @@ def x_statements(c):
 
 def judge(case):
     prog = case_prog(case)
+    ov = dict(case.get("ov") or {})
     try:
-        n, ks = expected_indices(prog)
+        n, ks = expected_indices(prog, ov)
     except (M.MeaningError, refexec.Reject) as ex:
         return "skipped:model-invalid:%s" % ex, [], None
     ks = [q[0] for q in ks]
@@ -184,10 +207,16 @@ def judge(case):
     fails = []
     info = {"refs": len(ks), "resolve": 0, "fill": 0, "used": 0, "emu": 0, "gsti": 0}
     # consumers work on the let-filled, macro-expanded circuit (as the emulator does)
-    o = lib.outcome(lambda: lib.expand_macros(lib.fill_in_let(c)))
+    o = lib.outcome(lambda: lib.expand_macros(lib.fill_in_let(c, ov or None)))
     if o[0] != "ok":
-        return "ok", [("rejected-valid-program:expand:" + o[1], {"error": o[2]})], info
+        return "ok", [("rejected-valid-program:expand:" + o[1], {"error": o[2], "ov": ov})], info
     ce = o[1]
+    c_run = c
+    if ov:
+        o = lib.outcome(lib.fill_in_let, c, ov)
+        if o[0] != "ok":
+            return "ok", [("rejected-valid-program:fill_in_let:" + o[1], {"error": o[2], "ov": ov})], info
+        c_run = o[1]
     xs = x_statements(ce)
     if len(xs) != len(ks):
         return "inconclusive:statement-count-mismatch", [], info
@@ -217,7 +246,7 @@ def judge(case):
             fails.append(("used_qubits-wrong", {"expected": {regname: [k]}, "got": got}))
             break
     # (2) fill_in_map
-    o = lib.outcome(lambda: lib.fill_in_map(lib.fill_in_let(c)))
+    o = lib.outcome(lambda: lib.fill_in_map(lib.fill_in_let(c, ov or None)))
     has_param_index = any(s[0] == "macro" and s[1].startswith("mi") for s in prog[1:])
     if o[0] == "jaqal" and has_param_index:
         info["fill_na"] = 1  # fill_in_map documents that it cannot handle parameter-dependent references
@@ -226,7 +255,7 @@ def judge(case):
         o2 = lib.outcome(lib.parse, sx.to_text(p2), X.native())
         if o2[0] == "ok":
             c2 = o2[1]
-            o = lib.outcome(lambda: lib.fill_in_map(lib.fill_in_let(c2)))
+            o = lib.outcome(lambda: lib.fill_in_map(lib.fill_in_let(c2, ov or None)))
             if o[0] != "ok":
                 fails.append(("fill_in_map-raised:" + o[1], {"error": o[2]}))
             else:
@@ -234,7 +263,7 @@ def judge(case):
                     km = M.core_from_ir(o[1])
                     if non_fundamental_refs(km):
                         fails.append(("fill_in_map-left-alias", {"refs": non_fundamental_refs(km)[:3]}))
-                    if not M.tree_equal(M.full_meaning(km, env={}), M.full_meaning(M.core_from_ir(c2), env={})):
+                    if not M.tree_equal(M.full_meaning(km, env={}), M.full_meaning(M.core_from_ir(c2), env=ov)):
                         fails.append(("fill_in_map-changed-meaning", {}))
                     else:
                         info["fill"] += len([s for s in p2[1:] if s == ("gate", "prepare_all")])
@@ -251,7 +280,7 @@ def judge(case):
             if bad:
                 fails.append(("fill_in_map-left-alias", {"refs": bad[:3]}))
             full = M.full_meaning(km, env={})
-            exp_full = M.full_meaning(M.core_from_ir(c), env={})
+            exp_full = M.full_meaning(M.core_from_ir(c), env=ov)
             if not M.tree_equal(full, exp_full):
                 fails.append(("fill_in_map-changed-meaning", {"diff": M.first_diff(exp_full, full)}))
             else:
@@ -260,9 +289,9 @@ def judge(case):
             fails.append(("fill_in_map-malformed-result", {"error": str(ex)[:200]}))
         except M.MeaningError as ex:
             fails.append(("fill_in_map-result-unresolvable:" + ex.kind, {"error": str(ex)}))
-    # (4) emulator
+    # (4) emulator -- one backend object serves every circuit of this process (as a user sweeping programs would)
     np.random.seed(1)
-    o = lib.budgeted(lib.run, 50000 + 3000 * len(ks), c)
+    o = lib.budgeted(lib.run, 50000 + 3000 * len(ks), c_run, backend=shared_backend())
     if o[0] == "budget":
         pass
     elif o[0] != "ok":
@@ -373,8 +402,9 @@ def run_case(ctx, n, chain, style, seed):
     import random
 
     rng = random.Random(seed)
-    prog, refs = build_program(n, chain, style, rng, offset=seed)
-    case = {"prog": prog, "n": n, "chain": [list(c) for c in chain], "style": style}
+    ov = {}
+    prog, refs = build_program(n, chain, style, rng, offset=seed, ov=ov)
+    case = {"prog": prog, "n": n, "chain": [list(c) for c in chain], "style": style, "ov": ov}
     feats = {"strided": any(s[0] == "slice" and (s[1] != 0 or s[3] != 1) for s in chain),
              "positions": sorted({p for p, i, r in refs})}
     process(ctx, case, feats)
@@ -412,13 +442,13 @@ def shard(ctx):
             if rec.time_left() < (rec.deadline - rec.t0) * 0.2:
                 complete = False
                 break
-            for si, style in enumerate(("lit", "default", "let")):
+            for si, style in enumerate(("lit", "default", "let", "override")):
                 prog = run_case(ctx, n, chain, style, j + si)
                 if rec.evaluations <= 3:
                     rec.sample({"n": n, "chain": chain, "style": style, "text": sx.to_text(prog)})
     rec.exhaustive = complete
     rec.note("exhaustive_space", {"(size, depth)": plan, "complete": complete,
-                                  "styles": "every chain is run with literal, defaulted and let-valued bounds"})
+                                  "styles": "every chain is run with literal, defaulted, let-valued and overridden-let bounds"})
     # random deeper chains
     i = 0
     while i < ctx.scale(300, 20000) and not rec.expired():
@@ -431,7 +461,7 @@ def shard(ctx):
             spec = rng.choice(level_specs(cur))
             chain.append(spec)
             cur = spec_len(spec, cur)
-        run_case(ctx, n, tuple(chain), rng.choice(["lit", "default", "let"]), rng.randrange(1 << 30))
+        run_case(ctx, n, tuple(chain), rng.choice(["lit", "default", "let", "override"]), rng.randrange(1 << 30))
     monitors.report_contracts(rec)
 
 
